@@ -140,13 +140,24 @@ def run_script(job):
     return {"hist": hist, "k": k, "defs": defs, "defs1": rdefs + shifted, "uses": uses, "obs": obs, "one": onego}
 
 
+TAILS = ["", "(see 'T2' there)", "(/v \"T3\" x", " [r] (y)", "[]x"]
+
+
 def law_refform(job):
-    text, dest, title, image, cfgkey = job
+    text, dest, title, image, cfgkey = job[:5]
+    form, tail = (job[5], TAILS[job[6]]) if len(job) > 5 else (0, "")
     md = A.md_for(cfgkey)
     bang = "!" if image else ""
     tt = (" " + title) if title else ""
-    inline = "%s[%s](%s%s)\n" % (bang, text, dest, tt)
-    ref = "%s[%s][r]\n\n[r]: %s%s\n" % (bang, text, dest, tt)
+    # the same text follows the link in both spellings (a parenthesised group after a shortcut reference makes the
+    # parser try - and abandon - the inline form first)
+    inline = "%s[%s](%s%s)%s\n\n[r]: /other\n" % (bang, text, dest, tt, tail)
+    if form == 0:        # full reference
+        ref = "%s[%s][r2]%s\n\n[r2]: %s%s\n\n[r]: /other\n" % (bang, text, tail, dest, tt)
+    elif form == 1:      # collapsed reference: the text is the label
+        ref = "%s[%s][]%s\n\n[%s]: %s%s\n\n[r]: /other\n" % (bang, text, tail, text, dest, tt)
+    else:                # shortcut reference
+        ref = "%s[%s]%s\n\n[%s]: %s%s\n\n[r]: /other\n" % (bang, text, tail, text, dest, tt)
     bt, dt = md.parse(inline), md.parse(ref)
 
     def nlinks(ts):
@@ -209,6 +220,20 @@ def run(tier, rep):
     texts, dests, titles = gen.alphabet("RText"), gen.alphabet("RDest"), gen.alphabet("RTitle")
     trip = list(itertools.product(texts, dests, titles, (0, 1)))
     j2 = [(t, d, ti, im, CFGS[k % 2]) for k, (t, d, ti, im) in enumerate(trip)]
+    # collapsed / shortcut forms (the text is the label: texts without brackets) and texts that follow the link
+    k = 0
+    for (t, d, ti, im) in trip:
+        for form in (0, 1, 2):
+            if form and ("[" in t or "]" in t):
+                continue
+            for tl in range(len(TAILS)):
+                if form == 0 and tl == 0:
+                    continue
+                if form in (1, 2) and TAILS[tl].startswith("[]"):
+                    continue          # "[]" after a shortcut reference makes it a collapsed one
+                if (k % (3 if q else 1)) == 0:
+                    j2.append((t, d, ti, im, CFGS[k % 2], form, tl))
+                k += 1
     t2 = C.pmap(law_refform, j2, chunk=200)
     verdicts, st = C.validate_traces("DocAlgebraTrace", t2, shard=3000)
     rep.tlc_stats("DocAlgebraTrace[refform]", st, len(t2))
@@ -220,8 +245,8 @@ def run(tier, rep):
         elif v.startswith("skip:"):
             skips[v] = skips.get(v, 0) + 1
         else:
-            rep.violation(f"refform:{v}:{json.dumps(job[:4])}",
-                          {"engine": "trace", "module": "DocAlgebraTrace", "clause": v, "triple": list(job[:4]), "config": json.loads(job[4])})
+            rep.violation(f"refform:{v}:{json.dumps(job[:4] + job[5:])}",
+                          {"engine": "trace", "module": "DocAlgebraTrace", "clause": v, "triple": list(job[:4]) + list(job[5:]), "config": json.loads(job[4])})
     rep.sample({"refform": list(j2[37][:4])})
     rep.cov["evaluations"] = len(traces) + len(t2)
     rep.cov["distinct_nontrivial"] = len(traces) + held
@@ -239,7 +264,8 @@ def replay(case, rep):
         t = run_script((case["script"], gen.cfg_key(case["config"]), case["classes"]))
         v, _ = C.validate_traces("EnvTrace", [t])
     else:
-        t = law_refform(tuple(case["triple"]) + (gen.cfg_key(case["config"]),))
+        tr = tuple(case["triple"])
+        t = law_refform(tr[:4] + (gen.cfg_key(case["config"]),) + tr[4:])
         v, _ = C.validate_traces("DocAlgebraTrace", [t])
     if not (v[0][0] == "ok" or v[0][0].startswith("skip:")):
         rep.violation(case.get("key", "replay"), case)
